@@ -183,7 +183,9 @@ Definition identifier (fuel : nat) (s0 s : st) : option (N * st) :=
 
 (* aliasParameter: only its advances reach the token *)
 Definition alias_body (_ : unit) (s : st) : option (unit * st) :=
-  if negb (atEnd s) && negb (is (peek s) 62) then Some (tt, adv s) else None.
+  if negb (atEnd s) && negb (is (peek s) 62) then
+    Some (tt, adv (if is (peek s) 10 then increaseLine s else s))
+  else None.
 Definition aliasParameter (fuel : nat) (s : st) : option (N * st) :=
   match iter alias_body fuel tt s with
   | None => None
